@@ -355,7 +355,13 @@ Theorem C06_block_real_absolute_routine_local :
   forall (T : Type) (N : Num T), AbsChildLocal (abs_child_block (T := T)).
 Proof. intros T N. apply abs_child_block_local. Qed.
 
-Theorem C06_block_engine_real_instance :
+(* PARTIAL (renamed by the audit of wave 7b): this is C06_block_engine_instance_partial at abs_child := abs_child_block, with the same
+   conclusion and therefore the same gap (asim leaves the subtree of EVERY out-of-flow node unconstrained and ignores content_size on
+   every node).  NOTE the engine: nodes are bare BStyles, dispatch is an arbitrary predicate `sel` of the node's OWN style and the leaf is
+   arbitrary -- `bl_algo` (Model/BlockEngine.v: dispatch on the number of children, leaf = compute_leaf_layout with the node's measure
+   function), the engine `vh blocktree` runs, is NOT an instance of this form.  The statement about the engine that is run is
+   C06_bl_engine_real_instance_partial below. *)
+Theorem C06_block_engine_real_instance_partial :
   forall (T : Type) (N : Num T) (pre : BStyle T -> BIn T -> BIn T)
          (sel : BStyle T -> bool) (leaf : BStyle T -> BIn T -> ChildOut T)
          (mode : BIn T -> RunMode) (in_eqb : BIn T -> BIn T -> bool) (is_none : BStyle T -> bool)
@@ -495,6 +501,29 @@ Theorem C06_bl_algorithm_abs_blind :
     AbsChildLocal abs_child ->
     AbsBlind (BNode T) (BIn T) (ChildOut T) (BLayout T) (bl_algo pre abs_child) bn_visible_absolute out_eq lay_eq.
 Proof. exact bl_algo_abs_blind. Qed.
+
+(* ... hence, for the engine `vh blocktree cases` RUNS (Model/BlockEngineRun.v: `bl_memo block_pre abs_child_block` = Engine.memo with the exact
+   key bin_eqb over `bl_algo`: dispatch on the number of children, leaf = compute_leaf_layout with the node's measure function, the real
+   preprocessing and the real absolute routine), any `Num`: the conclusion of C06_abs_blind_engine_partial, no premise left.  (Audit of
+   wave 7b: C06_block_engine_real_instance_partial above is about a `sel` / `leaf` engine over bare styles that no runner executes.)
+   PARTIAL for the reason C06_abs_blind_engine_partial is: asim leaves the subtree of every out-of-flow node unconstrained -- an UNCHANGED
+   absolute sibling is not covered -- and ignores content_size on every node.  Exact-key memo: the implementation under the verification
+   hook. *)
+Theorem C06_bl_engine_real_instance_partial :
+  forall (T : Type) (N : Num T) f f' t t' i o t1 o' t1',
+    asim (BNode T) (BIn T) (ChildOut T) (BLayout T) bn_visible_absolute out_eq lay_eq t t' ->
+    bl_memo block_pre abs_child_block f t i = Some (o, t1) ->
+    bl_memo block_pre abs_child_block f' t' i = Some (o', t1') ->
+    asim (BNode T) (BIn T) (ChildOut T) (BLayout T) bn_visible_absolute out_eq lay_eq t1 t1' /\
+    (bn_visible_absolute (style_of (BNode T) (BIn T) (ChildOut T) (BLayout T) t) = false -> out_eq o o').
+Proof.
+  intros T N f f' t t' i o t1 o' t1' Hs E E'. unfold bl_memo in *.
+  eapply (C06_abs_blind_engine_partial (BNode T) (BIn T) (ChildOut T) (BLayout T) bi_mode bin_eqb bn_is_none hidden_child_out zero_blay
+            (bl_algo block_pre abs_child_block) bn_visible_absolute out_eq lay_eq); eauto.
+  - apply out_eq_refl.
+  - apply lay_eq_refl.
+  - apply bl_algo_abs_blind. apply abs_child_block_local.
+Qed.
 
 (* C06_block_inflow_abs_blind / _delete_absolute, concrete over XQ: a container 212 wide with an in-flow child, an absolute
    child and another in-flow child; on the other side the absolute child has another style and another output and the first
@@ -767,13 +796,14 @@ Print Assumptions C06_block_source_predicates.
 Print Assumptions C06_block_algorithm_abs_blind.
 Print Assumptions C06_block_engine_instance_partial.
 Print Assumptions C06_block_real_absolute_routine_local.
-Print Assumptions C06_block_engine_real_instance.
+Print Assumptions C06_block_engine_real_instance_partial.
 Print Assumptions C06_block_resumption_runs_kernel.
 Print Assumptions C06_block_content_width_ignores_absolute.
 Print Assumptions C06_block_resumption_query_inputs.
 Print Assumptions C06_flex_algorithm_abs_blind.
 Print Assumptions C06_blockflex_engine_instance.
 Print Assumptions C06_bl_algorithm_abs_blind.
+Print Assumptions C06_bl_engine_real_instance_partial.
 Print Assumptions C06_grid_algorithm_abs_blind_refuted.
 Print Assumptions C06_grid_algorithm_abs_blind_lines.
 Print Assumptions C06_grid_engine_instance.
